@@ -24,6 +24,7 @@ ASSUMPTIONS = ["vf/ref/merkle_ref.py (recursive merkle, validated on mainnet blo
 OBLIGATIONS = {
     "concurrent_calls": "interleavings of two concurrent calls (single-case checks in two threads, cold and after warm-up calls)",
     "block_over_1mb": "a block larger than 1 000 000 bytes (and one larger than 4 000 000) round-tripped",
+    "long_history": "operations executed in one long history (>= 1000 distinct operations, forward / forward / reverse)",
     "history_sequences": "operation sequences (non-initial process states) explored",
     "merkle_odd_above_leaves": "a list length whose tree has an odd level above the leaves (5, 6, 9..)",
     "height_0": "height 0", "height_le_16": "a height 1..16 (OP_n form)", "height_sign_pad": "a height whose top bit needs a sign byte (128, 32768..)",
@@ -204,6 +205,8 @@ def jobs(tier, seed):
     js.append({"name": "block", "part": "block", "weight": 4})
     from vf.runner import seq_jobs
     js += seq_jobs(3, weight=2)
+    from vf.runner import long_jobs
+    js += long_jobs()
     from vf.runner import concur_jobs
     js += concur_jobs(len(CONCUR_SCEN))
     return js
@@ -215,6 +218,9 @@ def run_job(job):
         ops = seq_ops(dict(job, shard=[0, 1]))
         scens = [{"threads": [ops[i] for i in sc[0]], "warm": [ops[i] for i in sc[1]], "post": [ops[i] for i in (sc[2] if len(sc) > 2 else ())]} for sc in CONCUR_SCEN]
         return run_concur_job(job, scens, run_case, PROPERTY, CONCUR_FILES)
+    if job["part"] == "longhist":
+        from vf.runner import run_long_job, default_long_ops
+        return run_long_job(job, default_long_ops(seq_ops, job), run_case)
     if job["part"] == "seq":
         from vf.runner import run_seq_job
         return run_seq_job(job, seq_ops(job), run_case, depth=3 if job["tier"] == "quick" else 4)
